@@ -46,6 +46,16 @@ var hcheckOPLNoDoc = hcheckOPL[:strings.Index(hcheckOPL, "class Doc implements")
 // newTenantAPIEnv builds the registry through driver.NewDefaultRegistry with the
 // contextualizer; the returned environment's ctx is tenant A's.
 func newTenantAPIEnv(t testing.TB) (envA, envB *apiEnv, release func()) {
+	envA, envB, _, release = newTenantAPIEnv3(t)
+	return
+}
+
+// hcheckOPLSee: the document of tenant C - the same namespaces as tenant A's, but the permission
+// Doc#view is called Doc#see there (two tenants whose documents share a namespace name and
+// declare different relations in it).
+var hcheckOPLSee = strings.NewReplacer("view: (ctx", "see: (ctx", "p.permits.view(ctx)", "p.permits.see(ctx)", "this.permits.view(ctx)", "this.permits.see(ctx)").Replace(hcheckOPL)
+
+func newTenantAPIEnv3(t testing.TB) (envA, envB, envC *apiEnv, release func()) {
 	// literal namespaces (no file watchers: with a contextualized provider keto builds a new
 	// Config, and with it a new namespace manager, for every call of Registry.Config)
 	parsed, perrs := schema.Parse(hcheckOPL)
@@ -59,6 +69,15 @@ func newTenantAPIEnv(t testing.TB) (envA, envB *apiEnv, release func()) {
 		if n.Name != "Doc" {
 			nsB = append(nsB, &n)
 		}
+	}
+	parsedC, perrs := schema.Parse(hcheckOPLSee)
+	if len(perrs) > 0 {
+		t.Fatalf("tenant C OPL: %v", perrs[0])
+	}
+	var nsC []*namespace.Namespace
+	for i := range parsedC {
+		n := parsedC[i]
+		nsC = append(nsC, &n)
 	}
 	fa, fb := "", ""
 	dsn := dbx.GetSqlite(t, dbx.SQLiteMemory)
@@ -76,7 +95,7 @@ func newTenantAPIEnv(t testing.TB) (envA, envB *apiEnv, release func()) {
 		}
 		return p
 	}
-	ctxer := &tenantCtxer{byTenant: map[string]*configx.Provider{"A": mk(nsA), "B": mk(nsB)}}
+	ctxer := &tenantCtxer{byTenant: map[string]*configx.Provider{"A": mk(nsA), "B": mk(nsB), "C": mk(nsC)}}
 	rctx := configx.ContextWithConfigOptions(base, configx.WithValues(map[string]interface{}{
 		config.KeyDSN: dsn.Conn, "log.level": "panic",
 		config.KeyNamespaces: nsA,
@@ -99,5 +118,6 @@ func newTenantAPIEnv(t testing.TB) (envA, envB *apiEnv, release func()) {
 	read, write := reg.ReadRouter(rctx), reg.WriteRouter(rctx)
 	envA = &apiEnv{reg: reg, ctx: ctxA, read: read, write: write, chk: check.NewHandler(reg), oplFile: fa, curOPL: hcheckOPL, withReqCtx: true}
 	envB = &apiEnv{reg: reg, ctx: ctxB, read: read, write: write, chk: envA.chk, oplFile: fb, curOPL: hcheckOPLNoDoc, withReqCtx: true}
-	return envA, envB, release
+	envC = &apiEnv{reg: reg, ctx: context.WithValue(rctx, tenantKey{}, "C"), read: read, write: write, chk: envA.chk, curOPL: hcheckOPLSee, withReqCtx: true, viewPerm: "see"}
+	return envA, envB, envC, release
 }
